@@ -930,7 +930,8 @@ NEAR = {"t": 2.5 * (1 + 2e-6), "u": 3e-9, "m": 0.5 + 1e-9, "x": -2e-9, "why": 4,
 ARRAYS = [("grid", "static Float64[2,3]", [[0.0, 0.0, 0.0], [0.0, 0.0, 0.0]], [[1.0, 2.0, 3.0], [4.0, 5.0, 6.0]]),
           ("vec", "static Float64[3]", [0.0, 0.0, 0.0], [0.0, 0.0, 7.0]),
           ("dyn", "Float64[:] with default [1, 2]", [1.0, 2.0], [1.0, 2.0, 3.0]),
-          ("dyn0", "Float64[:] without default", None, [5.0])]
+          ("dyn0", "Float64[:] without default", None, [5.0]),
+          ("label", "String with default 'abc'", "abc", "wxyz")]
 
 
 def _jd_zoo(hw):
@@ -945,7 +946,8 @@ def _jd_zoo(hw):
     ArrF = hw.lab.array("ArrNFloat64", [None], (0,), F)
     fields = {"t": I.call(Field, [F], {"default": 2.5}), "u": F, "mid": Mid, "leaf2": Leaf,
               "grid": hw.lab.array("Arr2x3Float64", [2, 3], (0, 1), F), "vec": hw.lab.array("Arr3Float64", [3], (0,), F),
-              "dyn": I.call(Field, [ArrF], {"default": [1.0, 2.0]}), "dyn0": ArrF}
+              "dyn": I.call(Field, [ArrF], {"default": [1.0, 2.0]}), "dyn0": ArrF,
+              "label": I.call(Field, [I.global_lookup("string", "String")], {"default": "abc"})}
     Top = hw.mkclass("Top", fields, {"_rename": {"leaf2": "second"}})
     return Top
 
@@ -985,7 +987,7 @@ def run_roundtrip(model, choice, achoice=None):
                 val = []  # no declared default: an empty array
             awant[nm] = val
             if oth or dflt is None:
-                akw[nm] = [list(r) for r in val] if val and isinstance(val[0], list) else list(val)
+                akw[nm] = val if isinstance(val, str) else [list(r) for r in val] if val and isinstance(val[0], list) else list(val)
         top = I.call(Top, [], dict(akw, _buffer=hw.buf("A")))
         want = {}
         for leaf, other in zip(LEAVES, choice):
